@@ -640,7 +640,16 @@ def run_e2e(ctx, rng, defect_clear, nops):
                 ctx.log("e2e program %s %s does not compile:\n%s" % (pname, opt, (p.stdout + p.stderr)[-1500:]))
                 ctx.report_broken("e2e C06 program %s %s: llgo build failed" % (pname, opt), (p.stdout + p.stderr)[-3000:])
                 continue
-            out, err, rc = e2e.run_prog(exe, timeout=120)
+            # the trace is on stderr; keep what was printed even if the program hangs
+            pr = subprocess.Popen([exe], stdout=subprocess.DEVNULL, stderr=subprocess.PIPE)
+            try:
+                _, errb = pr.communicate(timeout=900)
+                rc = pr.returncode
+            except subprocess.TimeoutExpired:
+                pr.kill()
+                _, errb = pr.communicate()
+                rc = "timeout"
+            err = errb.decode("utf-8", "replace")
             stats["programs"] += 1
             lines = [l.split() for l in err.split("\n") if l.startswith("@ ")]
             stats["trace_lines"] += len(lines)
@@ -828,7 +837,7 @@ def run(ctx, args):
             ctx.report_broken("correspondence C06 real-vs-model", {"history": hist_json(h, mm[0]), "op": mm[0], "real": mm[1], "model": mm[2], "source": name})
     e2e_stats = None
     if not quick or os.environ.get("C06_E2E"):
-        e2e_stats = run_e2e(ctx, rng, defect_clear, 400 if quick else 1500)
+        e2e_stats = run_e2e(ctx, rng, defect_clear, 400 if quick else 1200)
         ctx.log("e2e:", e2e_stats)
     for name, s in st.items():
         if s != "ok":
